@@ -24,7 +24,7 @@ ASSUMPTIONS = [
     "the count returned next to the merged list by from_raire is not part of the property and is not judged",
 ]
 
-IDS = ["b1", "b2", "b3", "7"]
+IDS = ["b1", "b2", "b3", "7", 7]   # (7 and "7" are two cards)
 CONTESTS = ["m", "da", "x"]
 CANDS = ["A", "B", "C", "D"]
 
